@@ -36,8 +36,8 @@ CONSTANTS
     ReplayFromRequest,  \* TRUE: a request answered through its idempotency key builds its answer and its event from its own
                         \* kind and arguments (as coded: the public method does not compare the stored entry with the request);
                         \* FALSE: from the stored entry
-    LookupErrorIgnored, \* TRUE: a failing store lookup of the idempotency key is taken for "key unknown" and the request is executed
-    MaxReadFail,        \* number of failing store lookups of an idempotency key per behaviour
+    LookupErrorIgnored, \* TRUE: a failing store lookup of the idempotency key / the reference is taken for "unknown" and the request is executed
+    MaxReadFail,        \* number of failing store lookups (key, reference, transaction to revert) per behaviour
     MaxCancel,          \* number of request contexts cancelled per behaviour
     MaxCrash            \* number of crash/restart cycles explored
 
@@ -485,14 +485,16 @@ Cancel(p) ==
     /\ UNCHANGED <<req, pc, loc, store, lastLog, lastTx, refs, rl, wl, lq, seqOwner, pending, inflight,
                    doneSet, resp, events, gen, crashes, rfail>>
 
-\* the store fails the lookup of p's idempotency key (ReadLogWithIdempotencyKey returns an error that is not
-\* "not found"): the request is refused - whether the key was used is unknown
+\* the store fails one of the lookups a request makes before it executes - of its idempotency key
+\* (ReadLogWithIdempotencyKey), of its reference (GetTransactionByReference), of the transaction to revert
+\* (GetTransaction) - with an error that is not "not found": the request is refused, since whether the key or the
+\* reference was used is unknown
 ReadFail(p) ==
-    /\ pc[p] = "ik.taken" /\ rfail < MaxReadFail
+    /\ pc[p] \in {"ik.taken", "ref.taken", "rev.taken"} /\ rfail < MaxReadFail
     /\ rfail' = rfail + 1
     /\ UNCHANGED <<req, gen, crashes, cancelled>>
-    /\ IF LookupErrorIgnored
-       THEN /\ loc' = loc /\ Goto(p, "ik.checked")
+    /\ IF LookupErrorIgnored /\ pc[p] # "rev.taken"
+       THEN /\ loc' = loc /\ Goto(p, IF pc[p] = "ik.taken" THEN "ik.checked" ELSE "ref.checked")
             /\ UNCHANGED <<store, lastLog, lastTx, refs, rl, wl, lq, seqOwner, pending, inflight, doneSet, resp, events>>
        ELSE /\ Fail(p, "read-failed")
             /\ UNCHANGED <<store, lastLog, lastTx, pending, inflight, doneSet, events>>
